@@ -108,39 +108,37 @@ class NoInterlockMachine:
     cycle from a register file that contains exactly the writes of instructions whose write-back
     cycle is <= that cycle; ecalls read a7/a0 when they execute; memory is accessed in order."""
 
-    def __init__(self, program, reg0, mem_read0, K):
+    def __init__(self, program, regs, mem, K):
+        """regs, mem: private copies (symx Store forks) of the initial register file / memory"""
         self.program = program  # {address: (mnemonic, fields)}
-        self.reg0 = reg0
-        self.mem_read0 = mem_read0
+        self.regs = regs
+        self.memst = mem
         self.K = K
         self.timing = Timing(interlock=False)
-        self.writes = []  # (W cycle, rd, value) in program order
-        self.mem_log = []  # (addr, byte)
+        self.pending = []  # (W cycle, rd, value) in program order, not yet visible
         self.out = ""
         self.exit_code = None
         self.fault = None
         self.retired = []
         self.cut = False
 
+    def _make_visible(self, cycle):
+        while self.pending and self.pending[0][0] <= cycle:
+            w, rd, value = self.pending.pop(0)
+            self.regs.set(rd, value)
+
     def reg_at(self, r, cycle):
-        """value of register r as seen by a read in `cycle` (writes with W <= cycle visible)"""
-        v = self.reg0(r)
-        for (w, rd, value) in self.writes:
-            if w <= cycle:
-                v = ite(cond("==", rd, r), value, v)
-        return v
+        """value of register r as seen by a read in `cycle` (writes with W <= cycle visible);
+        read cycles are non-decreasing in program order, so visibility only grows"""
+        self._make_visible(cycle)
+        return self.regs.get(r)
 
     def reg_final(self, r):
-        v = self.reg0(r)
-        for (w, rd, value) in self.writes:
-            v = ite(cond("==", rd, r), value, v)
-        return v
+        self._make_visible(10**9)
+        return self.regs.get(r)
 
     def mem(self, a):
-        v = self.mem_read0(a)
-        for (addr, b) in self.mem_log:
-            v = ite(cond("==", addr, a), b, v)
-        return v
+        return self.memst.abstract(a)
 
     def run(self, lookup):
         """lookup(pc) -> (mnemonic, fields) or None"""
@@ -159,15 +157,15 @@ class NoInterlockMachine:
             read_cycle = t.X - 1 if m != "ecall" else t.XE
             eff = R.step(m, f, pc, lambda r: self.reg_at(r, read_cycle), self.mem)
             if eff.fault is not None:
-                self.fault = (pc, eff.fault)
+                self.fault = (pc, eff.fault, eff.touched)
                 break
             self.retired.append(pc)
             if eff.reg is not None:
                 rd, v = eff.reg
                 if rd != 0:
-                    self.writes.append((t.W, rd, v))
+                    self.pending.append((t.W, rd, v))
             for a, b in eff.mem:
-                self.mem_log.append((a, b))
+                self.memst.set(a, b)
             self.out += eff.out
             if eff.exit_code is not None:
                 self.exit_code = eff.exit_code
